@@ -64,13 +64,17 @@ Definition decode (sh : shard) (d : sdoc) : outcome ddoc :=
       end
   end.
 
-(** ShardBuilder.Add's mask loop: every branch must be one of the current repo's; bit i is set when some
-    document branch resolves (first match) to position i *)
+(** ShardBuilder.Add's mask loop: every branch must be one of the current repo's (branchMask(br) != 0);
+    `mask |= 1 << (first i with Branches[i].Name == br)`: bit i is set when branch i is named by the document
+    and no earlier branch of the repo carries the same name *)
+Definition memN (x : N) (l : list N) : bool := existsb (N.eqb x) l.
+Fixpoint enc_bits (brs seen names : list N) : list bool :=
+  match brs with
+  | [] => []
+  | b :: r => (negb (memN b seen) && memN b names) :: enc_bits r (b :: seen) names
+  end.
 Definition enc_mask (brs : list N) (names : list N) : option (list bool) :=
-  if forallb (fun n => match index_of n brs with Some _ => true | None => false end) names
-  then Some (map (fun i => existsb (fun n => match index_of n brs with Some j => Nat.eqb i j | None => false end) names)
-                 (seq 0 (length brs)))
-  else None.
+  if forallb (fun n => memN n brs) names then Some (enc_bits brs [] names) else None.
 
 Definition last_opt {A} (l : list A) : option A := match rev l with x :: _ => Some x | [] => None end.
 
